@@ -27,12 +27,6 @@ def rdsNat (p : Bpb) : Nat := (p.rootEntries * 32 + p.bytesPerSector - 1) / p.by
 /-- first data sector in unbounded arithmetic -/
 def fdsNat (p : Bpb) : Nat := p.reservedSectors + p.fats * p.sectorsPerFat + p.rdsNat
 
-/-- the three products/sums of the mount path that can exceed `u32` (finding F7) -/
-structure NoWrap (p : Bpb) : Prop where
-  fatsXspf : p.fats * p.sectorsPerFat < 4294967296
-  regionSum : p.reservedSectors + p.fats * p.sectorsPerFat + p.rdsNat < 4294967296
-  spfXbpsX8 : p.sectorsPerFat * p.bytesPerSector * 8 < 4294967296
-
 theorem sectorsPerFat_lt {p : Bpb} (hr : p.InRange) : p.sectorsPerFat < 4294967296 := by
   have := hr.spf16; have := hr.spf32
   unfold sectorsPerFat; split <;> omega
@@ -194,30 +188,49 @@ theorem validateRootEntries_error {p : Bpb} (hr : p.InRange) (hb : 0 < p.bytesPe
     · rw [u32Mul_of_lt (by omega), ebind_ok, u32Rem_of_ne (by omega)] at h
       cases h
 
-theorem validateTotalSectors_ok {p : Bpb} (hr : p.InRange) (hb : 0 < p.bytesPerSector)
-    (h : p.validateTotalSectors = .ok ()) :
-    p.totalSectorsFieldsBad = false ∧ p.fats * p.sectorsPerFat < 4294967296 ∧ p.fdsNat < p.totalSectors := by
-  unfold validateTotalSectors at h
-  split at h
-  · cases h
-  · rename_i hbad
-    simp only [ebind_eq_ok, firstDataSector_ok hr hb] at h
-    obtain ⟨v, ⟨h1, h2, rfl⟩, h⟩ := h
-    split at h
-    · cases h
-    · exact ⟨by simpa using hbad, h1, by omega⟩
+/-- the `u64` region sum never overflows and is the unbounded value -/
+theorem firstDataSector64_eq {p : Bpb} (hr : p.InRange) (hb : 512 ≤ p.bytesPerSector) :
+    p.firstDataSector64 = .ok p.fdsNat := by
+  have h1 := hr.fats; have h2 := sectorsPerFat_lt hr; have h3 := hr.rsvd
+  have h4 := rdsNat_le hr hb
+  have hm : p.fats * p.sectorsPerFat < 256 * 4294967296 := Nat.mul_lt_mul'' h1 h2
+  unfold firstDataSector64 fdsNat
+  rw [u64Mul_of_lt (by omega), ebind_ok, u64Add_of_lt (by omega), ebind_ok, rootDirSectors_eq hr (by omega),
+    ebind_ok, u64Add_of_lt (by omega)]
 
-theorem validateTotalSectors_error {p : Bpb} (hr : p.InRange) (hb : 0 < p.bytesPerSector) {e : Err}
-    (h : p.validateTotalSectors = .error e) :
-    e = .corrupted ∨ (e = .panic ∧ (4294967296 ≤ p.fats * p.sectorsPerFat ∨ 4294967296 ≤ p.fdsNat)) := by
+theorem validateTotalSectors_ok {p : Bpb} (hr : p.InRange) (hb : 512 ≤ p.bytesPerSector)
+    (h : p.validateTotalSectors = .ok ()) :
+    p.totalSectorsFieldsBad = false ∧ p.fdsNat < 4294967296 ∧ p.fdsNat < p.totalSectors := by
   unfold validateTotalSectors at h
-  split at h
-  · cases h; exact Or.inl rfl
-  · simp only [ebind_eq_error] at h
-    rcases h with h | ⟨v, _, h⟩
-    · exact Or.inr (firstDataSector_error hr hb h)
-    · split at h
-      · cases h; exact Or.inl rfl
+  by_cases hbad : p.totalSectorsFieldsBad = true
+  · rw [if_pos hbad] at h; cases h
+  · rw [if_neg hbad, firstDataSector64_eq hr hb, ebind_ok] at h
+    by_cases h64 : p.fdsNat > 0xFFFFFFFF
+    · rw [if_pos h64] at h; cases h
+    · rw [if_neg h64] at h
+      rw [ebind_eq_ok] at h
+      obtain ⟨v, hv, h⟩ := h
+      rw [firstDataSector_ok hr (by omega)] at hv
+      obtain ⟨_, _, rfl⟩ := hv
+      split at h
+      · cases h
+      · exact ⟨by simpa using hbad, by omega, by omega⟩
+
+/-- after the repair of F7 `validate_total_sectors` cannot panic -/
+theorem validateTotalSectors_error {p : Bpb} (hr : p.InRange) (hb : 512 ≤ p.bytesPerSector) {e : Err}
+    (h : p.validateTotalSectors = .error e) : e = .corrupted := by
+  unfold validateTotalSectors at h
+  by_cases hbad : p.totalSectorsFieldsBad = true
+  · rw [if_pos hbad] at h; cases h; rfl
+  · rw [if_neg hbad, firstDataSector64_eq hr hb, ebind_ok] at h
+    by_cases h64 : p.fdsNat > 0xFFFFFFFF
+    · rw [if_pos h64] at h; cases h; rfl
+    · rw [if_neg h64] at h
+      have hf : p.fats * p.sectorsPerFat < 4294967296 := by unfold fdsNat at h64; omega
+      have : p.firstDataSector = .ok p.fdsNat := (firstDataSector_ok hr (by omega)).2 ⟨hf, by omega, rfl⟩
+      rw [this, ebind_ok] at h
+      split at h
+      · cases h; rfl
       · cases h
 
 theorem validateSectorsPerFat_ok {p : Bpb} (h : p.validateSectorsPerFat = .ok ()) :
@@ -242,84 +255,68 @@ theorem sectorsPerFat_pos {p : Bpb} (h : p.isFat32 = true → p.sectorsPerFat32 
 theorem fatBits_cases (ft : FatType) : ft.bits = 12 ∨ ft.bits = 16 ∨ ft.bits = 32 := by
   cases ft <;> simp [FatType.bits]
 
-/-- the tail of `validate_total_clusters` succeeds iff the two products fit (the quotient is ≥ 128, so `- 2` is safe) -/
-theorem usableFatEntries_ok {p : Bpb} (ft : FatType) (hb : 512 ≤ p.bytesPerSector) (hs : 1 ≤ p.sectorsPerFat)
-    (hw : p.sectorsPerFat * p.bytesPerSector * 8 < 4294967296) :
+/-- the `u64` FAT capacity computation never overflows -/
+theorem usableFatEntries_eq {p : Bpb} (hr : p.InRange) (ft : FatType) :
     p.usableFatEntries ft = .ok (p.sectorsPerFat * p.bytesPerSector * 8 / ft.bits - 2) := by
-  have hm : 512 ≤ p.sectorsPerFat * p.bytesPerSector :=
-    Nat.le_trans hb (Nat.le_mul_of_pos_left _ hs)
-  unfold usableFatEntries
-  rw [u32Mul_of_lt (by omega), ebind_ok, u32Mul_of_lt (by omega), ebind_ok]
+  have h1 := sectorsPerFat_lt hr; have h2 := hr.bps
+  have hm : p.sectorsPerFat * p.bytesPerSector < 4294967296 * 65536 := Nat.mul_lt_mul'' h1 h2
   have hbits := fatBits_cases ft
-  rw [u32Div_of_ne (by omega), ebind_ok, u32Sub_of_le]
-  rcases hbits with h | h | h <;> rw [h] <;> omega
+  unfold usableFatEntries
+  rw [u64Mul_of_lt (by omega), ebind_ok, u64Mul_of_lt (by omega), ebind_ok, u64Div_of_ne (by omega), ebind_ok]
+  rfl
 
-theorem usableFatEntries_error {p : Bpb} (ft : FatType) (hb : 512 ≤ p.bytesPerSector) (hs : 1 ≤ p.sectorsPerFat)
-    {e : Err} (h : p.usableFatEntries ft = .error e) :
-    e = .panic ∧ 4294967296 ≤ p.sectorsPerFat * p.bytesPerSector * 8 := by
-  by_cases hw : p.sectorsPerFat * p.bytesPerSector * 8 < 4294967296
-  · rw [usableFatEntries_ok ft hb hs hw] at h; cases h
-  · refine ⟨?_, by omega⟩
-    unfold usableFatEntries at h
-    simp only [ebind_eq_error] at h
-    rcases h with h | ⟨a, ha, h⟩
-    · exact (u32Mul_error h).1
-    · rcases h with h | ⟨c, hc, h⟩
-      · exact (u32Mul_error h).1
-      · rw [u32Mul_ok] at ha hc
-        omega
+theorem fromClusters_fat32 {n : Nat} : FatType.fromClusters n = .fat32 ↔ 65525 ≤ n := by
+  unfold FatType.fromClusters
+  split
+  · simp; omega
+  · split
+    · simp; omega
+    · simp; omega
 
 theorem validateTotalClusters_ok {p : Bpb} (hr : p.InRange) (hb : 512 ≤ p.bytesPerSector)
     (h : p.validateTotalClusters = .ok ()) :
-    (p.isFat32 = true ↔ FatType.fromClusters p.tcNat = .fat32) ∧ p.tcNat ≤ 0x0FFFFFFF ∧
-    p.sectorsPerFat * p.bytesPerSector * 8 < 4294967296 := by
+    (p.isFat32 = true ↔ FatType.fromClusters p.tcNat = .fat32) ∧ p.tcNat ≤ 0x0FFFFFF4 ∧
+    (p.isFat32 = true → 2 ≤ p.rootDirFirstCluster ∧ p.rootDirFirstCluster < p.tcNat + 2) := by
   unfold validateTotalClusters at h
   simp only [ebind_eq_ok, totalClusters_ok hr (by omega : 0 < p.bytesPerSector)] at h
   obtain ⟨v, ⟨_, _, _, _, rfl⟩, h⟩ := h
   by_cases hw : p.isFat32 ≠ decide (FatType.fromClusters p.tcNat = .fat32)
   · rw [if_pos hw] at h; cases h
   · rw [if_neg hw] at h
-    by_cases hl : FatType.fromClusters p.tcNat = .fat32 ∧ p.tcNat > 0x0FFFFFFF
+    by_cases hl : FatType.fromClusters p.tcNat = .fat32 ∧ p.tcNat > maxClusters (FatType.fromClusters p.tcNat)
     · rw [if_pos hl] at h; cases h
     · rw [if_neg hl] at h
-      rw [ebind_eq_ok] at h
-      obtain ⟨u, hu, _⟩ := h
-      refine ⟨?_, ?_, ?_⟩
-      · cases hf : p.isFat32 <;> simp_all
-      · have := totalSectors_lt hr
-        by_cases h32 : FatType.fromClusters p.tcNat = .fat32
-        · simp only [h32, true_and] at hl; omega
-        · unfold FatType.fromClusters at h32
-          split at h32
-          · omega
-          · split at h32
-            · omega
-            · exact absurd rfl h32
-      · unfold usableFatEntries at hu
-        simp only [ebind_eq_ok, u32Mul_ok] at hu
-        obtain ⟨a, ⟨_, rfl⟩, c, ⟨h2, rfl⟩, _⟩ := hu
-        exact h2
+      by_cases hrc : p.rootClusterBad p.tcNat = true
+      · rw [if_pos hrc] at h; cases h
+      · refine ⟨?_, ?_, ?_⟩
+        · cases hf : p.isFat32 <;> simp_all
+        · by_cases h32 : FatType.fromClusters p.tcNat = .fat32
+          · rw [h32] at hl; simp only [true_and, maxClusters] at hl; omega
+          · rw [fromClusters_fat32] at h32; omega
+        · intro hf
+          unfold rootClusterBad at hrc
+          simp [hf] at hrc
+          omega
 
 theorem validateTotalClusters_error {p : Bpb} (hr : p.InRange) (hb : 512 ≤ p.bytesPerSector)
-    (hs : 1 ≤ p.sectorsPerFat) (hspc : p.sectorsPerCluster ≠ 0)
-    (hf : p.fats * p.sectorsPerFat < 4294967296) (hfds : p.fdsNat < p.totalSectors) {e : Err}
-    (h : p.validateTotalClusters = .error e) :
-    e = .corrupted ∨ (e = .panic ∧ 4294967296 ≤ p.sectorsPerFat * p.bytesPerSector * 8) := by
-  have hts := totalSectors_lt hr
+    (hspc : p.sectorsPerCluster ≠ 0)
+    (hf : p.fdsNat < 4294967296) (hfds : p.fdsNat < p.totalSectors) {e : Err}
+    (h : p.validateTotalClusters = .error e) : e = .corrupted := by
+  have hfx : p.fats * p.sectorsPerFat < 4294967296 := by unfold fdsNat at hf; omega
   have htc : p.totalClusters = .ok p.tcNat :=
-    (totalClusters_ok hr (by omega)).2 ⟨hf, by omega, by omega, hspc, rfl⟩
+    (totalClusters_ok hr (by omega)).2 ⟨hfx, hf, by omega, hspc, rfl⟩
   unfold validateTotalClusters at h
   rw [htc, ebind_ok] at h
   by_cases hw : p.isFat32 ≠ decide (FatType.fromClusters p.tcNat = .fat32)
-  · rw [if_pos hw] at h; cases h; exact Or.inl rfl
+  · rw [if_pos hw] at h; cases h; rfl
   · rw [if_neg hw] at h
-    by_cases hl : FatType.fromClusters p.tcNat = .fat32 ∧ p.tcNat > 0x0FFFFFFF
-    · rw [if_pos hl] at h; cases h; exact Or.inl rfl
+    by_cases hl : FatType.fromClusters p.tcNat = .fat32 ∧ p.tcNat > maxClusters (FatType.fromClusters p.tcNat)
+    · rw [if_pos hl] at h; cases h; rfl
     · rw [if_neg hl] at h
-      rw [ebind_eq_error] at h
-      rcases h with h | ⟨_, _, h⟩
-      · exact Or.inr (usableFatEntries_error _ hb hs h)
-      · cases h
+      by_cases hrc : p.rootClusterBad p.tcNat = true
+      · rw [if_pos hrc] at h; cases h; rfl
+      · rw [if_neg hrc, usableFatEntries_eq hr, ebind_ok] at h
+        cases h
 
 /-- everything `validate = .ok ()` establishes -/
 structure Valid (p : Bpb) : Prop where
@@ -338,8 +335,8 @@ structure Valid (p : Bpb) : Prop where
   fds : p.fdsNat < p.totalSectors
   spf : 1 ≤ p.sectorsPerFat
   width : p.isFat32 = true ↔ FatType.fromClusters p.tcNat = .fat32
-  limit : p.tcNat ≤ 0x0FFFFFFF
-  spfXbpsX8 : p.sectorsPerFat * p.bytesPerSector * 8 < 4294967296
+  limit : p.tcNat ≤ 0x0FFFFFF4
+  rootCluster : p.isFat32 = true → 2 ≤ p.rootDirFirstCluster ∧ p.rootDirFirstCluster < p.tcNat + 2
 
 theorem validate_ok {p : Bpb} (hr : p.InRange) (h : p.validate = .ok ()) : p.Valid := by
   unfold validate at h
@@ -353,60 +350,48 @@ theorem validate_ok {p : Bpb} (hr : p.InRange) (h : p.validate = .ok ()) : p.Val
     have hspc := validateSectorsPerCluster_ok hr h2
     obtain ⟨r1, r2, r3⟩ := validateReservedSectors_ok h3
     obtain ⟨e1, e2⟩ := validateRootEntries_ok h5
-    obtain ⟨t1, t2, t3⟩ := validateTotalSectors_ok hr (by omega) h6
+    obtain ⟨t1, t2, t3⟩ := validateTotalSectors_ok hr hb h6
     have hspf := sectorsPerFat_pos (validateSectorsPerFat_ok h7)
     obtain ⟨c1, c2, c3⟩ := validateTotalClusters_ok hr hb h8
-    exact ⟨by omega, hbps, hspc, r1, r2, r3, validateFats_ok h4, e1, e2, t1, t2, t3, hspf, c1, c2, c3⟩
+    have hfx : p.fats * p.sectorsPerFat < 4294967296 := by unfold fdsNat at t2; omega
+    exact ⟨by omega, hbps, hspc, r1, r2, r3, validateFats_ok h4, e1, e2, t1, hfx, t3, hspf, c1, c2, c3⟩
 
-/-- `validate` panics only at one of the three wrap sites -/
-theorem validate_error {p : Bpb} (hr : p.InRange) {e : Err} (h : p.validate = .error e) :
-    e = .corrupted ∨ (e = .panic ∧ (4294967296 ≤ p.fats * p.sectorsPerFat ∨ 4294967296 ≤ p.fdsNat ∨
-      4294967296 ≤ p.sectorsPerFat * p.bytesPerSector * 8)) := by
+/-- after the repairs every failure of `validate` is `CorruptedFileSystem`: no panic is left -/
+theorem validate_error {p : Bpb} (hr : p.InRange) {e : Err} (h : p.validate = .error e) : e = .corrupted := by
   unfold validate at h
   by_cases hv : p.fsVersion ≠ 0
-  · rw [if_pos hv] at h; cases h; exact Or.inl rfl
+  · rw [if_pos hv] at h; cases h; rfl
   · rw [if_neg hv] at h
     rw [ebind_eq_error] at h
     rcases h with h | ⟨_, h1, h⟩
-    · exact Or.inl (validateBytesPerSector_error h)
+    · exact validateBytesPerSector_error h
     have hbps := validateBytesPerSector_ok h1
     have hb : 512 ≤ p.bytesPerSector := by omega
     rw [ebind_eq_error] at h
     rcases h with h | ⟨_, h2, h⟩
-    · exact Or.inl (validateSectorsPerCluster_error hr h)
+    · exact validateSectorsPerCluster_error hr h
     have hspc := validateSectorsPerCluster_ok hr h2
     rw [ebind_eq_error] at h
     rcases h with h | ⟨_, h3, h⟩
-    · exact Or.inl (validateReservedSectors_error h)
+    · exact validateReservedSectors_error h
     rw [ebind_eq_error] at h
     rcases h with h | ⟨_, h4, h⟩
-    · exact Or.inl (validateFats_error h)
+    · exact validateFats_error h
     rw [ebind_eq_error] at h
     rcases h with h | ⟨_, h5, h⟩
-    · exact Or.inl (validateRootEntries_error hr (by omega) h)
+    · exact validateRootEntries_error hr (by omega) h
     rw [ebind_eq_error] at h
     rcases h with h | ⟨_, h6, h⟩
-    · rcases validateTotalSectors_error hr (by omega) h with h | ⟨he, h | h⟩
-      · exact Or.inl h
-      · exact Or.inr ⟨he, Or.inl h⟩
-      · exact Or.inr ⟨he, Or.inr (Or.inl h)⟩
-    obtain ⟨t1, t2, t3⟩ := validateTotalSectors_ok hr (by omega) h6
+    · exact validateTotalSectors_error hr hb h
+    obtain ⟨t1, t2, t3⟩ := validateTotalSectors_ok hr hb h6
     rw [ebind_eq_error] at h
     rcases h with h | ⟨_, h7, h⟩
-    · exact Or.inl (validateSectorsPerFat_error h)
-    have hspf := sectorsPerFat_pos (validateSectorsPerFat_ok h7)
-    rcases validateTotalClusters_error hr hb hspf (by omega) t2 t3 h with h | ⟨he, h⟩
-    · exact Or.inl h
-    · exact Or.inr ⟨he, Or.inr (Or.inr h)⟩
+    · exact validateSectorsPerFat_error h
+    exact validateTotalClusters_error hr hb (by omega) t2 t3 h
 
-theorem validate_not_panic {p : Bpb} (hr : p.InRange) (hw : p.NoWrap) : p.validate ≠ .error .panic := by
+theorem validate_not_panic {p : Bpb} (hr : p.InRange) : p.validate ≠ .error .panic := by
   intro h
-  have h1 := hw.fatsXspf; have h2 := hw.regionSum; have h3 := hw.spfXbpsX8
-  rcases validate_error hr h with h | ⟨_, h | h | h⟩
-  · cases h
-  · omega
-  · unfold fdsNat at h; omega
-  · omega
+  cases validate_error hr h
 
 /-- after a successful validation the geometry derivation cannot fail, and yields these values -/
 theorem geometry_eq {p : Bpb} (hr : p.InRange) (hv : p.Valid) :
